@@ -51,6 +51,16 @@ struct Tm  // non-trivial target constructible from Ms by copy or by move
     ~Tm() noexcept {}
 };
 
+struct Tn  // like Tm, but its converting move constructor is not noexcept (a container must still move from rvalue ranges)
+{
+    u32 v;
+    u32 how;
+    Tn(const Ms& s) : v(s.v), how(1) {}
+    Tn(Ms&& s) : v(s.v), how(2) { s.moved = s.moved + 1; }
+    Tn(const Tn&) = default;
+    ~Tn() {}
+};
+
 #if PAIR == 1
 using SRC = u32;
 using DST = u32;
@@ -84,6 +94,9 @@ using DST = i32;
 #elif PAIR == 11
 using SRC = i32;
 using DST = u8;  // narrowing
+#elif PAIR == 13
+using SRC = Ms;
+using DST = Tn;
 #else
 using SRC = float;
 using DST = float;
@@ -127,7 +140,7 @@ u64 bits_of(const T& x)
         __builtin_memcpy(&b, &x, 1);
         r = b;
     }
-    else if constexpr (std::is_same_v<T, Tm> || std::is_same_v<T, Ms>)
+    else if constexpr (std::is_same_v<T, Tm> || std::is_same_v<T, Tn> || std::is_same_v<T, Ms>)
     {
         r = x.v;
     }
@@ -141,9 +154,9 @@ template <class DST_ = DST, class SRC_ = SRC>
 static DST_ convert(const SRC_& s)
 {
     using DST = DST_;
-    if constexpr (std::is_same_v<DST, Tm>)
+    if constexpr (std::is_same_v<DST, Tm> || std::is_same_v<DST, Tn>)
     {
-        return Tm(s);
+        return DST(s);
     }
     else
     {
@@ -160,6 +173,7 @@ inline u32 field_moved(const Ms& x) { return x.moved; }
 template <class X>
 u32 field_how(const X&) { return 0; }
 inline u32 field_how(const Tm& x) { return x.how; }
+inline u32 field_how(const Tn& x) { return x.how; }
 template <class X>
 void reset_moved(X&) {}
 inline void reset_moved(Ms& x) { x.moved = 0; }
